@@ -57,6 +57,11 @@ func runC15(p *Prog, r *Report) {
 			r.Viol("C15.R6", "rate window/prefix-fold", "-", "the window of --rate is the written duration: the count-less form gets exactly the count 1 in front (fold over the first byte)", "the window is not read through the folded prefix idiom (a unit table or another conversion is not modelled)")
 		}
 	}
+	// ... and --rate is parsed on every option combination: both option families derive the rate fields
+	// (and delegate to the embedded parse step) on every non-failing path of parseRawOptions
+	if checkEveryOptionParsed(p, r, "C15.R6", func(f string) bool { return f == "rateCount" || f == "rateWindow" }) < 4 {
+		r.Viol("C15.R6", "rate-parsed/sites", "-", "both option families derive rateCount and rateWindow", "fewer than 4 derivations")
+	}
 	r.Min("C15.R1", 2)
 	r.Min("C15.R3", 3)
 	r.Min("C15.R4", 4)
